@@ -1146,7 +1146,7 @@ pub fn run(args: Args) {
             }
         }
     }
-    let total: u64 = args.tier.pick(240_000, 6_000_000);
+    let total: u64 = args.tier.pick(240_000, 3_000_000);
     let seed = args.seed;
     let workers = args.workers;
     run.parallel(workers, |w, n| {
